@@ -122,6 +122,27 @@ def theorem_names(prop_file):
     return re.findall(r"^\s*(?:Theorem|Corollary)\s+([A-Za-z0-9_']+)", txt, flags=re.M)
 
 
+def failing_lemmas(build_text):
+    """From coqc's 'File "./X.v", line N' messages: the statement (Lemma/Theorem/Definition ...) that encloses line N."""
+    out = []
+    for m in re.finditer(r'File "\./([^"]+\.v)", line (\d+)', build_text or ""):
+        f, line = m.group(1), int(m.group(2))
+        try:
+            lines = open(os.path.join(COQ, f), encoding="utf-8").read().split("\n")
+        except OSError:
+            continue
+        name = None
+        for i in range(min(line, len(lines)) - 1, -1, -1):
+            mm = re.match(r"\s*(?:Local\s+|Global\s+|#\[[^\]]*\]\s*)*(Lemma|Theorem|Corollary|Fact|Example|Definition|Fixpoint|Instance)\s+([A-Za-z0-9_']+)", lines[i])
+            if mm:
+                name = "%s %s" % (mm.group(1), mm.group(2))
+                break
+        item = "%s: %s (line %d)" % (f, name or "?", line)
+        if item not in out:
+            out.append(item)
+    return out
+
+
 def assumption_targets(coq_file):
     """the lemmas a facts file itself lists under `Print Assumptions` (top level, as written there)"""
     txt = open(os.path.join(COQ, coq_file), encoding="utf-8").read()
